@@ -1060,6 +1060,71 @@ func (g *c08Run) fresh() error {
 	return g.fund()
 }
 
+// restart: the chain is exported and a new chain is started from that genesis — every balance of the bank module
+// and the rns module's own genesis (names, listings, bids, init records, parameters) — the way a network restarts
+// from an export.  Escrowed bids must come through: the module account still holds exactly the open bids and every
+// bidder can still take its bid back.
+func (w *c08World) restart() error {
+	nxt, err := NewEnv()
+	if err != nil {
+		return err
+	}
+	nxt.At(w.e.Height, w.e.Time)
+	var perr string
+	if perr = Guard(func() {
+		nxt.App.BankKeeper.InitGenesis(nxt.Ctx, w.e.App.BankKeeper.ExportGenesis(w.e.Ctx))
+		for _, m := range c19Modules() {
+			if m.Name != "rns" {
+				continue
+			}
+			for _, kv := range mustDump(nxt, m.StoreKey) {
+				nxt.Ctx.KVStore(c19StoreKey(nxt, m.StoreKey)).Delete(kv.K)
+			}
+			if ierr := m.Import(nxt, m.Export(w.e)); ierr != nil {
+				panic(ierr)
+			}
+		}
+	}); perr != "" {
+		nxt.Close()
+		return fmt.Errorf("restart from the exported genesis failed: %s", perr)
+	}
+	w.e.Close()
+	w.e = nxt
+	rs := nxt.App.CommitMultiStore().(*rootmulti.Store)
+	for k := range rs.GetStores() {
+		if k.Name() == rnstypes.StoreKey {
+			w.rnsKey = k
+		}
+	}
+	return nil
+}
+
+// restartTwin: more open bids than one page of any listing holds, a restart from the exported genesis, then every
+// kind of settlement on the restarted chain
+func (g *c08Run) restartTwin() error {
+	if err := g.fresh(); err != nil {
+		return err
+	}
+	A, B, C := 0, 1, 2
+	before := []c08Op{{Kind: "Register", S: A, Name: c08N1, Years: 1, Data: "{}"}, {Kind: "Bid", S: B, Name: c08N1, Denom: "ujkl", Amt: 77}, {Kind: "Bid", S: C, Name: c08N1, Denom: "uatom", Amt: 5}}
+	for i := 0; i < 104; i++ {
+		before = append(before, c08Op{Kind: "Bid", S: 1 + i%2, Name: fmt.Sprintf("rb%03d.jkl", i), Denom: "ujkl", Amt: int64(100 + i)})
+	}
+	g.chain(before, "restart-twin-before")
+	pre := g.w.observe()
+	if err := g.w.restart(); err != nil {
+		g.r.Finding(g.mon.which+"/restart/import-failed", err.Error(), map[string]interface{}{"history": before})
+		return nil
+	}
+	post := g.w.observe()
+	g.mon.check(pre, c08Op{Kind: "Restart"}, OutOk, post, append(append([]c08Op{}, before...), c08Op{Kind: "Restart"}))
+	g.r.Hist("ops", "Restart")
+	after := []c08Op{{Kind: "CancelBid", S: B, Name: "rb000.jkl"}, {Kind: "CancelBid", S: C, Name: "rb103.jkl"}, {Kind: "CancelBid", S: B, Name: "rb102.jkl"}, {Kind: "AcceptBid", S: A, Name: c08N1, T: C},
+		{Kind: "CancelBid", S: B, Name: c08N1}, {Kind: "CancelBid", S: C, Name: "rb051.jkl"}, {Kind: "Bid", S: C, Name: "rb051.jkl", Denom: "ujkl", Amt: 9}}
+	g.chain(after, "restart-twin-after")
+	return nil
+}
+
 // c08AddrOf: the bech32 address of user i (same numbering as the world's accounts)
 func c08AddrOf(i int) string {
 	setBech32() // the SDK caches address strings: never render one before the prefix is configured
@@ -1327,6 +1392,12 @@ func runC08(r *RunCtx, which string) error {
 		}
 	}()
 	if err := g.deterministic(); err != nil {
+		return err
+	}
+	if g.w.err != nil {
+		return g.w.err
+	}
+	if err := g.restartTwin(); err != nil {
 		return err
 	}
 	if g.w.err != nil {
